@@ -216,6 +216,45 @@ def rule_e(F):
     return res
 
 
+def rule_k(F):
+    """C19.K: a table's hash is a function of its *current* contents, all the way down. The Table arm of
+    `Hash for CaoLangObject` walks the rows (a loop over the table's row iterator) and feeds every key and every value to
+    the hasher at the time of the call. A hash taken from a stored field / memo of the table goes stale when a table nested
+    inside it changes (the outer table is not touched by that), so two tables that compare equal hash differently."""
+    res = []
+    ty = "vm::runtime::cao_lang_object::CaoLangObject"
+    key = "C19/K/CaoLangObject::Table/hash-walks-the-current-rows"
+    fh = impl_fn(F, "hash::Hash", ty, "hash")
+    m = match_arms(fh)
+    arm = None
+    for a in (m["arms"] if m else []):
+        kinds = all_variant_names(a["pat"])
+        if kinds and all(k_ == "Table" for k_ in kinds):
+            arm = a
+    if arm is None:
+        raise AnchorMissing("Table arm of Hash for CaoLangObject")
+    loops = [y for y in hir_walk(arm["body"]) if y.get("k") == "match" and y.get("source") == "ForLoopDesugar"]
+    walked = False
+    for lp in loops:
+        head = lp.get("e") or lp.get("scrut") or {}
+        over_rows = any(z.get("k") == "mcall" and z["name"] in ("iter", "keys", "values") and
+                        any("CaoLangTable::" in n_ or "CaoHashMap::" in n_ for n_ in hir_callee(z)) for z in hir_walk(head))
+        hashes = [z for z in hir_walk(lp) if z.get("k") == "mcall" and z["name"] == "hash" and any(n_.endswith("Hash::hash") for n_ in hir_callee(z))]
+        if over_rows and len(hashes) >= 2:
+            walked = True
+    memo = [z for z in hir_walk(arm["body"]) if z.get("k") == "mcall" and any("CaoLangTable::" in n_ for n_ in hir_callee(z))
+            and z["name"] not in ("iter", "keys", "values", "len", "is_empty")]
+    if walked and not memo:
+        res.append(ok("C19.K", key, fh.loc(arm.get("ln")), "the rows are walked and every key and value is hashed at call time"))
+    else:
+        res.append(bad("C19.K", key, fh.loc(arm.get("ln")),
+                       "the Table arm of Hash for CaoLangObject does not walk the rows at the time of the call (it feeds %s to the hasher): a "
+                       "stored / memoised content hash is not reset when a table nested inside this one changes, so after such a change the "
+                       "table hashes differently from an equal table built afresh - equal values no longer hash equally"
+                       % (("the result of CaoLangTable::%s" % memo[0]["name"]) if memo else "something else than the rows")))
+    return res
+
+
 def rule_n(F):
     """C19.N: integers and reals are ordered by numeric value. An i64 converted to f64 is rounded beyond 2^53, so a mixed
     comparison that converts the integer side is wrong there (2^53+1 compares Equal to 2^53.0). In `PartialOrd for Value`
@@ -412,6 +451,7 @@ def rule_z(F):
 RULES = [
     Rule("C19.H", rule_h, 6, "hash never finer than eq (no pointer identity in the hasher)"),
     Rule("C19.T", rule_t, 1, "table equality and hash agree on row order"),
+    Rule("C19.K", rule_k, 1, "a table's hash is computed from its current rows"),
     Rule("C19.N", rule_n, 1, "mixed integer/real ordering is exact (no i64 -> f64 rounding)"),
     Rule("C19.X", rule_x, 2, "equality of numbers is the payloads' exact =="),
     Rule("C19.C", rule_c, 2, "numbers are ordered by their payload's own PartialOrd (consistent with ==)"),
